@@ -35,7 +35,7 @@ class Schedule:
     overridden (replay / minimisation).  Returns None for "do not yield at all"."""
 
     PROFILES = ("sync", "zero", "uniform", "per_sim", "starved", "heavy",
-                "slow_req", "ties", "explicit")
+                "slow_req", "ties", "slowlink", "explicit")
 
     def __init__(self, spec: Optional[Dict[str, Any]] = None):
         spec = dict(spec or {})
@@ -97,6 +97,11 @@ class Schedule:
             if x < 0.1:
                 return 50 * u
             return (0, 1)[int(x * 20) % 2] * u
+        if p == "slowlink":
+            # some links slower than RemoteProxy.stop's 0.1 s patience
+            if h64(self.seed, sid, "slow") % 2:
+                return (20, 60, 120, 250)[int(x * 4)] * u
+            return (0, 1, 2, 5)[int(x * 4)] * u
         if p == "slow_req":
             if phase.startswith("req"):
                 return (2, 5, 10)[int(x * 3)] * u
@@ -120,7 +125,8 @@ class Run:
         self.proxies: Dict[str, Any] = {}    # sid -> base proxy
         self.counters: Dict[str, int] = {}
         self.fault_state: Dict[str, Any] = {}
-        self.in_flight: Dict[str, int] = {}  # sid -> number of requests in flight
+        self.in_flight: Dict[str, int] = {}  # sid -> number of requests in flight (sim side)
+        self.in_flight_mosaik: Dict[str, int] = {}  # sid -> requests issued by mosaik, not yet answered
         self.probes: Dict[str, int] = {}
         self.current_spec = None
         self.loop_exceptions: List[str] = []
